@@ -1152,30 +1152,13 @@ fn run_inner(case: &StressCase) -> SResult {
                             }
                         };
                         let before = api2.snapshot();
-                        // C08: close() clears first and stops the workers afterwards; a value whose
-                        // insert *began* after that clear and was accepted is not covered by the
-                        // "close() drops resident values silently" exception - it was not resident
-                        // then. Once everything has wound down it is resident or was handed to
-                        // exactly one callback. (Judged when there is a single close() and no
-                        // clear() in the scripts.)
-                        let t_clear = CLOSE_CLEAR_DONE_NS.load(Ordering::SeqCst);
-                        if quiet && single_close && t_clear != 0 {
-                            let resident: HashSet<Val> = before.entries.iter().map(|e| e.value).collect();
-                            let log = post_sh.cb.log.lock();
-                            for (v, began) in post_sh.begin_ns.lock().iter() {
-                                if *began <= t_clear {
-                                    continue;
-                                }
-                                let n = log.iter().filter(|(_, e)| e.val() == Some(*v)).count() + resident.contains(v) as usize;
-                                if n != 1 {
-                                    return Some(SResult::violation(
-                                        &["C08"],
-                                        "accepted_during_close_lost",
-                                        format!("value {} was accepted by an insert that began after close() had finished its clear; after the workers wound down it is resident {} time(s) and was handed to {} callback(s)", v, resident.contains(v) as usize, n - resident.contains(v) as usize),
-                                    ));
-                                }
-                            }
-                        }
+                        // (No conservation claim for values accepted while a close() is under way: C08
+                        // quantifies over histories of inserts, updates, removes, expirations and
+                        // evictions - not over operations racing a close(), whose only documented
+                        // duties are C12's. An earlier predicate `accepted_during_close_lost` demanded
+                        // it and fired on the unchanged tree: an insert that lands after the stop
+                        // drain's last look and before the processor drops its receiver is accepted
+                        // and never applied.)
                         // C19: a lone close() (nothing racing it) leaves the synchronous cache empty
                         // - close() clears before it stops the workers - and the async cache must
                         // show the same
